@@ -497,7 +497,7 @@ pub fn check_c05(plan: &Plan, out: &RunOutput) -> Option<Violation> {
                 "60 s after the last activity the server is not waiting in idle: notifications have stopped flowing",
             ));
         }
-        if matches!(plan.consumer, Consumer::Drain | Consumer::StartAt(_)) {
+        if matches!(plan.consumer, Consumer::Drain | Consumer::StartAt(_) | Consumer::Ticking { .. }) {
             let got = out.events.iter().any(|(seq, _, e)| {
                 matches!(e, EventRec::Change(n) if n == "simprobe")
                     && Some(*seq) > out.probe_change_seq
